@@ -28,3 +28,38 @@ def _ed(name, metric, result):
 
 _ed('euclidean_distance', 0, 'vsqrt(EDsum(s1, l1, s2, l2, 0, maxi(l1, l2)))')
 _ed('euclidean_distance_euclidean', 1, 'EDsum(s1, l1, s2, l2, 1, maxi(l1, l2))')
+
+
+def _ed_nd(name, metric, result):
+    """Contract written for the multivariate routines as the property states them (every dimension
+    of every point, surplus points against the last *point* of the shorter series)."""
+    inner = dict(inv=['0 <= di <= ndim', 'd == InnerNd(s1, {b1}, s2, {b2}, di)'], variant='ndim - di')
+
+    def il(b1, b2):
+        return dict(head='for(;di < ndim;)', inv=[x.format(b1=b1, b2=b2) for x in inner['inv']], variant=inner['variant'])
+    contract(
+        'dd_ed.c::' + name,
+        params={'s1': 'cptr:val', 'l1': 'int', 's2': 'cptr:val', 'l2': 'int', 'ndim': 'int'},
+        requires=['l1 >= 1', 'l2 >= 1', '1 <= ndim <= 2**10', 'l1 <= 2**40', 'l2 <= 2**40',
+                  'length(s1) - off(s1) >= l1 * ndim', 'length(s2) - off(s2) >= l2 * ndim',
+                  'off(s1) >= 0', 'off(s2) >= 0'],
+        ensures=['result == %s' % result],
+        loops={
+            0: dict(head='for(;i < n;)', inv=['0 <= i <= n', 'n == mini(l1, l2)',
+                                              'ub == EDsumNd(s1, l1, s2, l2, ndim, %d, i)' % metric], variant='n - i'),
+            1: il('i * ndim', 'i * ndim'),
+            2: dict(head='for(;i < l1;)', inv=['n <= i <= l1', 'n == l2', 'l1 > l2',
+                                               'ub == EDsumNd(s1, l1, s2, l2, ndim, %d, i)' % metric], variant='l1 - i'),
+            3: il('i * ndim', '(n - 1) * ndim'),
+            4: dict(head='for(;i < l2;)', inv=['n <= i <= l2', 'n == l1', 'l1 < l2',
+                                               'ub == EDsumNd(s1, l1, s2, l2, ndim, %d, i)' % metric], variant='l2 - i'),
+            5: il('(n - 1) * ndim', 'i * ndim'),
+        },
+        theories=('bounds',),
+        replay=gens.gen_ed(True),
+        props=('C09', 'C11', 'C08', 'C20'),
+    )
+
+
+_ed_nd('euclidean_distance_ndim', 0, 'vsqrt(EDsumNd(s1, l1, s2, l2, ndim, 0, maxi(l1, l2)))')
+_ed_nd('euclidean_distance_ndim_euclidean', 1, 'EDsumNd(s1, l1, s2, l2, ndim, 1, maxi(l1, l2))')
